@@ -220,6 +220,8 @@ func main() {
 		if bad > 0 {
 			os.Exit(1)
 		}
+	case "mutate":
+		runMutate(repo, verif, pos)
 	case "check":
 		if len(pos) != 1 {
 			usage()
